@@ -907,6 +907,21 @@ class Crate:
         cc = c.get("calls_closure")
         if cc and cc in self.bodies and cc not in out:
             out.append(cc)
+        # format_args!: `Argument::new_display::<T>(&x)` dispatches to <T as Display>::fmt at run time
+        m = re.match(r"core::fmt::rt::Argument::<'_>::new_(display|debug|lower_hex|upper_hex|lower_exp|upper_exp|octal|binary|pointer)", p)
+        if m and c.get("targs"):
+            tr = {"display": "std::fmt::Display", "debug": "std::fmt::Debug"}.get(m.group(1), "std::fmt::" + m.group(1).title().replace("_", ""))
+            t0 = c["targs"][0]
+            while t0.startswith("&"):
+                t0 = t0[1:].lstrip()
+                if t0.startswith("mut "):
+                    t0 = t0[4:]
+            base = re.sub(r"<.*$", "", t0)
+            for n, b in self.bodies.items():
+                if b.impl and b.impl.get("trait") == tr and n.endswith("::fmt"):
+                    st = b.impl.get("self_head") or re.sub(r"<.*$", "", b.impl.get("self_ty", ""))
+                    if st == base and n not in out:
+                        out.append(n)
         if c.get("rk") in ("unresolved", "virtual"):
             g = c.get("generic", p)
             tr = c.get("trait")
